@@ -49,6 +49,10 @@ def gen(rs: int, tier: str, index: int) -> dict:
         # whatever the worker does with them then, it must not acknowledge before the function has finished
         kn = dict(KNOBS, W=[0.05, 0.2, 0.2, 1.0], N=[None, None, 1, 2, 3], p_stop=0.85, p_sync=0.34, p_crash=0.0, workers=[1],
                   durations={"zero": 1, "tiny": 1, "short": 2, "medium": 4, "long": 5, "poll": 2})
+    if index % 6 == 1:
+        # a middleware hook fails while the message is being processed (no crashes in these runs): processing is aborted, and
+        # whatever the worker does then it must not acknowledge twice, nor acknowledge a when_saved message it never tried to store
+        kn = dict(KNOBS, p_hook_raise=0.35, p_crash=0.0, middlewares=(1, 2), p_faults=1.0)
     from ._wcommon import maybe_cli_entry
     s = maybe_cli_entry(gen_worker_script(rs, tier_knobs(dict(kn, p_warn_error=0.08), tier, index)), index, 7, 5)
     from ._wcommon import sync_timeouts
@@ -119,9 +123,15 @@ def oracle(script: dict, run: Any) -> List[Violation]:
         # keeps its task alive any more (a garbage collection destroys it), which is a crash as far as the acknowledgement goes
         lret = next((e for e in h.kind("listen_return") if e[5]["w"] == wn and e[5]["gen"] == gen), None)
         orphaned = lret is not None and cb_exit is not None and cb_exit[0] > lret[0]
-        if kind == "valid" and not crashed and not orphaned and cb_exit is not None and not acks:
-            # no fault kind used by this check makes callback() raise legitimately (no failing hooks, acks or cancellations are scripted),
-            # so processing that ended - however it ended - without the acknowledgement is a message that is never acknowledged
+        hooked = [hr[0] for hr in (m.get("hook_raise") or []) if len(hr) == 2]
+        if hooked and acks and ack_type == "when_saved" and save_enter is None and hooked[0] in ("pre_execute", "on_error", "post_execute") \
+                and h.first(d, "hook_failed") is not None:
+            out.append(Violation("C02/saved-ack-without-store-attempt", f"when_saved: delivery {d} was acknowledged although its processing was aborted by a failing "
+                                 f"{hooked[0]} hook before any attempt to store a result", d=d))
+        if kind == "valid" and not crashed and not orphaned and cb_exit is not None and not acks and not hooked:
+            # apart from a scripted failing hook (waived above) no fault kind used by this check makes callback() raise legitimately (no
+            # failing acks or cancellations are scripted), so processing that ended - however it ended - without the acknowledgement is
+            # a message that is never acknowledged
             how = cb_exit[5].get("how")
             tail = "" if how == "ok" else f"; callback() ended with {how}"
             out.append(Violation("C02/never-acked", f"delivery {d} (message {k}) completed processing on {node} but was never acknowledged (ack type {ack_type}){tail}", d=d))
